@@ -172,9 +172,7 @@ theorem sumSeats_seatsAdd (s add : Seats) : sumSeats (seatsAdd s add) = sumSeats
   | cons x xs ih => rw [List.foldl_cons, ih, sumSeats_seatsAdd1, sumSeats_cons]; omega
 
 theorem totAvail_go (avail : List (Cand × Option Int)) (acc : Option Int) {t : Int}
-    (h : avail.foldl (fun acc p => match acc, p.2 with
-      | some s, some k => some (s + k)
-      | _, _ => none) acc = some t) :
+    (h : avail.foldl availAdd acc = some t) :
     ∃ s0, acc = some s0 ∧ (∀ p ∈ avail, ∃ k, p.2 = some k) ∧ t = s0 + (avail.map (fun p => p.2.getD 0)).sum := by
   induction avail generalizing acc with
   | nil => simp only [List.foldl_nil] at h; exact ⟨t, h, by simp, by simp⟩
@@ -182,13 +180,12 @@ theorem totAvail_go (avail : List (Cand × Option Int)) (acc : Option Int) {t : 
     rw [List.foldl_cons] at h
     obtain ⟨s1, h1, h2, h3⟩ := ih _ h
     cases acc with
-    | none => simp at h1
+    | none => simp [availAdd] at h1
     | some s0 =>
       cases hx : x.2 with
-      | none => rw [hx] at h1; simp at h1
+      | none => simp [availAdd, hx] at h1
       | some k =>
-        rw [hx] at h1
-        simp only [Option.some.injEq] at h1
+        simp only [availAdd, hx, Option.some.injEq] at h1
         refine ⟨s0, rfl, ?_, ?_⟩
         · intro p hp
           rcases List.mem_cons.mp hp with he | he
